@@ -65,8 +65,13 @@ func (i *imports) RegisterPrefixAlias(alias string, path string) error {
 // Alias generates an alias for given path and adds path to collection of all imports.
 // See Imports.
 func (i *imports) Alias(import_ string) string {
-	import_ = i.decorateImport(import_)
+	return i.AliasPath(i.decorateImport(import_))
+}
 
+// AliasPath works like Alias, but it expects a full path, prefixes registered by RegisterPrefixAlias are not applied.
+// Use it for packages imported by the generated code itself (e.g. "fmt"),
+// aliases defined by the user must not change their meaning.
+func (i *imports) AliasPath(import_ string) string {
 	if imp, ok := i.imports[import_]; ok {
 		return imp
 	}
@@ -108,4 +113,13 @@ func (i *imports) decorateImport(imp string) string {
 	}
 
 	return imp
+}
+
+// InternalAlias returns an alias for a package that is imported by the generated code itself.
+// It ignores prefixes registered by the user whenever the given aliaser supports that.
+func InternalAlias(a interface{ Alias(string) string }, path string) string {
+	if p, ok := a.(interface{ AliasPath(string) string }); ok {
+		return p.AliasPath(path)
+	}
+	return a.Alias(path)
 }
